@@ -7,8 +7,10 @@ From KV Require Import Model.Triu.
 
 Record player := { na : nat; ng : nat; wa : nat; wg : nat }.   (* factor dims, inverse workers of A and G *)
 Inductive pmethod := EigenPlain | EigenPrediv | InverseM.
-Record pcfg := { pW : nat; pk : nat; pmeth : pmethod; psym : bool; pfsz : nat; pisz : nat }.
-(* world size, gradient workers per layer, method, symmetry-aware, bytes per element of factors / second-order data *)
+Record pcfg := { pW : nat; pk : nat; pmeth : pmethod; psym : bool; pfsz : nat; pisz : nat;
+                 pfdt : nat; pidt : nat; pgdt : nat }.
+(* world size, gradient workers per layer, method, symmetry-aware, bytes per element of factors / second-order data,
+   dtype tags of the factors, of the second-order data and of the gradients (= parameters) *)
 
 Definition pp (c : pcfg) : nat := pW c / pk c.                    (* number of columns *)
 Definition pcol (c : pcfg) (l : player) : nat := wa l mod pp c.   (* the layer's gradient-worker column *)
